@@ -35,7 +35,11 @@ Theorem C22_unencrypted_roundtrip : forall id data r, i64 id -> len data < 2 ^ 3
 Proof. exact unencrypted_roundtrip. Qed.
 Print Assumptions C22_unencrypted_roundtrip.
 
-(* Reused receivers (read loops decode into one long-lived value): whatever the value held
+(* Reused receivers (read loops decode into one long-lived value). NOTE: these three
+   equalities hold by unfolding the hand-written _into models (append(old[:0], ..) keeps nothing
+   of old); that the code really resets its receiver is NOT established by the proof but by
+   the differential replay of dirty receivers (checker modes 8-10, harness reuse stream).
+   Statement: whatever the value held
    before -- a longer message, a failed decode -- the outcome is that of a fresh value, so
    all round-trip theorems above hold for sequences decoded into the same value.
    (For containers this holds since fix 173e3bd61; before it the old messages were kept.) *)
@@ -94,6 +98,7 @@ Section Gzip.
     len data < c_maxUncompressedSize /\
     exists buf, data = fst (gzip_read gz_stream buf) /\ len (fst (gz_stream buf)) < c_maxUncompressedSize /\ data = fst (gz_stream buf).
   Proof. exact (gzip_bomb gz_head gz_stream). Qed.
+  (* the cap is the argument of io.LimitReader as generated from the source (limit_reader_arg_go) *)
   Theorem C22_bomb_bounded_read : forall buf, len (fst (gzip_read gz_stream buf)) <= c_maxUncompressedSize.
   Proof. exact (gzip_read_bounded gz_stream). Qed.
   Theorem C22_total_gzip : forall b, bytes_ok b -> decode_gzip gz_head gz_stream b <> Panic.
@@ -117,6 +122,16 @@ Example C22_gzip_hypothesis_satisfiable :
 Proof. exists (fun x => x), (fun _ => true), (fun x => (x, false)). intros x; split; reflexivity. Qed.
 Example C22_limit_is_10MiB : c_maxUncompressedSize = 10 * 1024 * 1024.
 Proof. reflexivity. Qed.
+(* the assumption Bytes = len Body of C22_container_roundtrip is necessary: Message.Encode
+   does not check it, and a message whose Bytes field is smaller than its body encodes fine
+   but decodes to a different container (the surplus body bytes are left unread) *)
+Example C22_bytes_field_must_match :
+  let ms := [mkMsg 7 1 0 [1; 2; 3; 4]] in
+  match encode_container ms with
+  | Ok e => decode_container e = Ok ([mkMsg 7 1 0 []], [1; 2; 3; 4])
+  | _ => False
+  end.
+Proof. vm_compute. reflexivity. Qed.
 Example C22_container_nonvacuous :
   let ms := [mkMsg 7 1 3 [1; 2; 3]; mkMsg (-9) 2 0 []] in
   Forall valid_msg ms /\
